@@ -227,6 +227,7 @@ theorem inv0_step (s : Sys) (h : Inv0 s) (op : Op) : Inv0 (s.step op).1 := by
         rename_i hg
         have : s.up = false := hu
         exact absurd (Or.inl (by simp [this])) hg
+  | regq => exact h
   | stop =>
     show Inv0 (s.stepStop).1
     unfold stepStop
@@ -392,6 +393,7 @@ theorem c05_rw_only_by_promotion_or_election (s : Sys) (op : Op) (i : Nat)
     · have h2 : (if (s.node i).att = .rw then { s.node i with snaps := (s.node i).snaps ++ [(s.nextSnap, (s.node i).log)] }
           else s.node i).att = .rw := h1'
       split at h2 <;> exact h0 h2
+  | regq => exact absurd h1 h0
   | stop =>
     exfalso
     have h1' : ((s.stepStop).1.node i).att = .rw := h1
@@ -443,6 +445,7 @@ theorem invE_step (s : Sys) (h : InvE s) (op : Op) : InvE (s.step op).1 := by
   | rbdone i => show InvE (s.stepRbDone i).1; unfold stepRbDone; split <;> exact h
   | remove i => show InvE (s.stepRemove i).1; unfold stepRemove; split <;> exact h
   | snap => show InvE (s.stepSnap).1; unfold stepSnap; split <;> exact h
+  | regq => exact h
   | stop => exact h
 
 theorem invE_run (ops : List Op) : ∀ s : Sys, InvE s → InvE (s.run ops) := by
